@@ -51,8 +51,8 @@ CLAIMED = {
  "C02": dict(technique="gate-dominance analysis on MIR (edge dominators, bool::then closures, call-site propagation) + confinement inventory of Extensions reads + argument lineage + const-evaluated bit layout",
              text="Decides four structural necessary conditions of extension independence: each construct that implements an extension's special reading is dominated by the flag-set outcome of a test of its own flag; the control-relevant reads of an Extensions value are exactly the reviewed gate sites; the extension set handed to sub-parsers and the analysis is the configured one; flag bits are disjoint as documented. It does not decide that gated code is a no-op on core syntax (a parse result).",
              ref="DESIGN.md §5 C02"),
- "C03": dict(technique="MIR inventory of failure sites + narrow-integer arithmetic discipline + must-pass-through progress analysis of every loop and recursion cycle",
-             text="Decides that the set of ways the two library crates can fail to return (explicit panics/asserts/unwraps, unsafe operations, overflowing narrow-integer arithmetic, loops without a progress construct) is exactly the reviewed set: every site is enumerated on the MIR of the current tree and must match tables/panics.toml, narrow_arith.toml, progress.toml; todo!() is never acceptable. It does not decide bounds checks/slicing or that a guard condition is right.",
+ "C03": dict(technique="MIR inventories of failure sites, integer arithmetic, index/slice sites with machine-checked discharge conditions (guard dominance, ordering, modular-counter discipline) + must-pass-through progress analysis of every loop and recursion cycle",
+             text="Decides that the set of ways the two library crates can fail to return (explicit panics/asserts/unwraps, unsafe operations, overflowing narrow-integer arithmetic and usize subtraction, index and slice accesses, loops and recursion without a progress construct) is exactly the reviewed set: every site is enumerated on the MIR of the current tree and must match tables/panics.toml, narrow_arith.toml, index_sites.toml, progress.toml, and where the invariant that makes a site safe is a local dominance fact it is re-verified on every run; todo!() is never acceptable. It does not decide that a guard condition is numerically right, usize additions, stack depth or dependency internals.",
              ref="DESIGN.md §5 C03"),
  "C18": dict(technique="effect analysis over the resolved call graph (statics, interior mutability, hash iteration, ambient inputs, pointer identity, unsafe) + type-reachability of parser state",
              text="Decides that no function reachable from the parse entry points contains a source of hidden state or nondeterminism and that the parser type holds no shared writable state (Freeze, Send+Sync, &self entry points). This is the whole structural content of the property; what remains is the trusted base (dependencies summarised as pure, user closures).",
